@@ -139,7 +139,7 @@ static void sim_cb(binson_parser *parser, uint16_t next_state, void *ctx) {
     if (g_yield_hook) { int saved = g_in_library; g_in_library = 0; g_yield_hook(Y_TOKEN); g_in_library = saved; }
 }
 
-PSession::~PSession() { block_free(pblk); block_free(sblk); block_free(bblk); }
+PSession::~PSession() { block_free(pblk); block_free(sblk); block_free(bblk); block_free(arena); }
 
 static void fill_garbage(uint8_t *p, size_t n, uint64_t seed) {
     if (seed == 0) { memset(p, 0, n); return; }
@@ -178,8 +178,13 @@ void PSession::scribble(uint64_t seed) {
 
 void PSession::deliver(size_t len) {
     if (len > src.size()) len = src.size();
-    block_free(bblk);
-    bblk = block_alloc(len, guard_mode, guard_mode == 0 ? lead : 0);
+    block_free(bblk); block_free(arena); bblk = Block();
+    if (tail_room && guard_mode == 0) {
+        // one arena of the caller: [ message | room for what is extracted from it ]; bblk is a view of the first part
+        arena = block_alloc(len + tail_room, 0, lead);
+        memset(arena.p + len, 0xA5, tail_room);
+        bblk.p = arena.p; bblk.n = len;
+    } else bblk = block_alloc(len, guard_mode, guard_mode == 0 ? lead : 0);
     if (len) memcpy(bblk.p, src.data(), len);
     copy.assign(src.begin(), src.begin() + (long)len);
 }
@@ -209,8 +214,8 @@ void PSession::check_span(const char *what, const bbuf *b, Outcome &o) {
 }
 
 void PSession::end_checks() {
-    if (bblk.base && bblk.n && memcmp(bblk.p, copy.data(), bblk.n) != 0) sink.fail("C01.const_buffer", "delivered buffer was modified");
-    if (!block_canary_ok(pblk) || !block_canary_ok(sblk) || !block_canary_ok(bblk)) sink.fail("C01.canary", "bytes around a caller-supplied block were overwritten");
+    if (bblk.p && bblk.n && memcmp(bblk.p, copy.data(), bblk.n) != 0) sink.fail("C01.const_buffer", "delivered buffer was modified");
+    if (!block_canary_ok(pblk) || !block_canary_ok(sblk) || !block_canary_ok(bblk) || !block_canary_ok(arena)) sink.fail("C01.canary", "bytes around a caller-supplied block were overwritten");
 }
 
 static std::string short_text(const std::string &t) {
@@ -332,14 +337,18 @@ __attribute__((noinline)) void PSession::do_call(const Op &op, Outcome &o) {
             }
             size_t capn = (size_t)(op.a < 0 ? 0 : op.a);
             wb = block_alloc(sizeof(binson_writer), 0); memset(wb.p, 0x5A, wb.n);
-            wdest = block_alloc(capn, 0); if (capn) memset(wdest.p, 0xA5, capn);
+            uint8_t *dst;
+            if (op.c == 2 && arena.p && tail_room) {   // the destination is the caller's room right behind the message, no gap
+                capn = std::min(capn, tail_room); dst = arena.p + bblk.n; memset(dst, 0xA5, tail_room);
+                bump(cnt, "probe.to_writer_destination_adjacent_to_message");
+            } else { wdest = block_alloc(capn, 0); if (capn) memset(wdest.p, 0xA5, capn); dst = wdest.p; }
             sw = (binson_writer *)wb.p;
-            LIB(binson_writer_init(sw, wdest.p, capn));
+            LIB(binson_writer_init(sw, dst, capn));
             LIB(o.ret = binson_parser_to_writer(p, sw));
             LIB(o.size_out = binson_writer_get_counter(sw));
             uint32_t we = 0; memcpy(&we, &sw->error_flags, 4);
             size_t shown = std::min(o.size_out, capn);
-            o.text = fmt("werr=%s wbytes=", err_name(we)) + to_hex(wdest.p, shown);
+            o.text = fmt("werr=%s wbytes=", err_name(we)) + to_hex(dst, shown);
             break;
         }
         default: o.skipped = true; break;
@@ -470,6 +479,28 @@ void WSession::setup(uint64_t prefill) {
     w = (binson_writer *)wblk.p;
     inited = false;
 }
+static void aux_build(std::vector<Bytes> &docs, std::vector<Bytes> &conts) {
+    for (int v = 0; v < AUX_DOCS; v++) {
+        Node root; root.t = V_OBJ;
+        Node a; a.name = Bytes{'a'};
+        switch (v) {
+            case 0: { a.t = V_OBJ; Node b; b.t = V_INT; b.i = 1; b.name = Bytes{'b'}; a.kids.push_back(b); break; }
+            case 1: a.t = V_OBJ; break;                       // empty object: the smallest container there is
+            case 2: a.t = V_ARR; break;                       // empty array
+            case 3: { a.t = V_ARR; Node x; x.t = V_ARR; Node y; y.t = V_OBJ; a.kids.push_back(x); a.kids.push_back(y); break; }
+            case 4: { a.t = V_OBJ; Node b; b.t = V_STR; b.s.assign(130, (uint8_t)'x'); b.name = Bytes{'b'}; a.kids.push_back(b); break; }   // 2-byte length inside
+            default: { a.t = V_ARR; for (int i = 0; i < 3; i++) { Node e; e.t = V_BYTES; e.s = Bytes{1, 2, 3}; a.kids.push_back(e); } break; }
+        }
+        Node c; c.t = V_INT; c.i = 2; c.name = Bytes{'c'};
+        root.kids.push_back(a); root.kids.push_back(c);
+        Bytes d; encode(root, d);
+        docs.push_back(d);
+        conts.push_back(Bytes(d.begin() + (long)root.kids[0].tok, d.begin() + (long)(root.kids[0].tok + root.kids[0].tok_len)));
+    }
+}
+const Bytes &aux_doc(int v) { static std::vector<Bytes> d, c; if (d.empty()) aux_build(d, c); return d[(size_t)(((v % AUX_DOCS) + AUX_DOCS) % AUX_DOCS)]; }
+Bytes aux_container(int v) { static std::vector<Bytes> d, c; if (d.empty()) aux_build(d, c); return c[(size_t)(((v % AUX_DOCS) + AUX_DOCS) % AUX_DOCS)]; }
+
 uint32_t WSession::err() const { uint32_t e = 0; memcpy(&e, &w->error_flags, 4); return e; }
 size_t WSession::counter() const { return w->buffer_used; }
 
@@ -521,10 +552,11 @@ Outcome WSession::call(const Op &op) {
         case W_TO_WRITER: {
             // binson_parser_to_writer with an auxiliary parser over {"a":{"b":1},"c":2}; op.a selects where that parser stands:
             // 0 on the scalar "c" (nothing to extract), 1 on the un-entered container "a", 2 parser with a latched error, 3 just initialised, 4 NULL parser
-            static const uint8_t aux[] = {0x40, 0x14, 0x01, 0x61, 0x40, 0x14, 0x01, 0x62, 0x10, 0x01, 0x41, 0x14, 0x01, 0x63, 0x10, 0x02, 0x41};
+            // which document: op.a / 5 (empty containers, nested ones, longer ones: see aux_build)
+            const Bytes &aux = aux_doc((int)(op.a / 5));
             binson_state ast[4]; binson_parser ap; memset(&ap, 0, sizeof ap); ap.state = ast; ap.max_depth = 4;
             int v = (int)(op.a % 5);
-            LIB(binson_parser_init_object(&ap, aux, sizeof aux));
+            LIB(binson_parser_init_object(&ap, aux.data(), aux.size()));
             if (v != 3) LIB(binson_parser_go_into_object(&ap));
             if (v == 0) { LIB(binson_parser_next(&ap)); LIB(binson_parser_next(&ap)); }
             if (v == 1) LIB(binson_parser_next(&ap));
